@@ -20,6 +20,7 @@ import subprocess
 from engine import flow, report
 from engine.flow import Terms, cfg, short
 from rules.common import TRUSTED
+from rules import pat
 
 PROP = "C16"
 
@@ -305,6 +306,36 @@ def size_side_only(b, tm, c, h, x, blocks):
     return False
 
 
+def rule_size_plumbing(facts):
+    """The 'completed' latch is the size in effect stored in the decoder state: the streaming decoder must build its
+    DecoderState with the size LzmaParams::read_header decided (header / option), whatever the other options are."""
+    r = report.RuleResult("C16.R3b", "the streaming decoder's size in effect is the one read_header decided, unconditionally")
+    b = None
+    for x in facts.bodies:
+        if x.promoted is None and short(x.name).endswith("stream::Stream::read_header"):
+            b = x
+    r.need("Stream::read_header", b is not None)
+    if b is None:
+        return r
+    tm = Terms(b)
+    calls = [blk for blk in b.calls() if (flow.callee(blk.term) or "").endswith("DecoderState::new")]
+    r.sites = len(calls)
+    r.need("construction of the DecoderState in Stream::read_header", len(calls) >= 1)
+    for blk in calls:
+        t = tm.of_operand(blk.term.args[1])
+        base = t
+        while isinstance(base, tuple) and base and base[0] in ("ok", "okp", "try", "cast"):
+            base = base[1] if base[0] != "cast" else base[2]
+        if isinstance(base, tuple) and base[0] == "field" and base[1] == "unpacked_size" and \
+                flow.term_has(base, lambda q: q[0] == "call" and q[1].endswith("LzmaParams::read_header")) and \
+                not flow.term_has(t, lambda q: q[0] == "phi"):
+            r.ok("provenance", {"DecoderState::new(_, size)": "params.unpacked_size of LzmaParams::read_header"})
+        else:
+            r.bad("read_header|size", "the size in effect of the streaming decoder is %s, not the size decided by LzmaParams::read_header: "
+                  "with a different size the stream never becomes 'completed' (or completes early)" % flow.show(t)[:100], pat.where(b, blk.idx))
+    return r
+
+
 def run(ctx, t0):
     facts = ctx.facts()
     tname, field = latch_field(facts)
@@ -316,7 +347,7 @@ def run(ctx, t0):
     else:
         r1, r2 = rule_write(facts, tname, field)
         r2 = rule_finish_flush(facts, tname, field, r2)
-        rules += [r1, r2, rule_completed(facts)]
+        rules += [r1, r2, rule_completed(facts), rule_size_plumbing(facts)]
     expl = ("Static typestate analysis of the Option latch of the streaming decoder over the MIR control-flow graph "
             "(take / refill / None-assignment as transfer functions; checked at every Err source), path checks on "
             "the None arms of write and finish, and the position/shape of the size test of the shared decoding loop. "
